@@ -185,6 +185,13 @@ def parse_unit(path):
             ps = arg.split()
             unit.entries.append(("item", ps[0], ps[1:]))
             buf_target = None
+        elif d == "%expect":
+            # %expect PATH `tokens` : the item's text must start with these tokens (a fact a stub relies on)
+            m = re.match(r"(\S+)\s+`(.*)`\s*$", arg)
+            if not m:
+                raise SpecError(f"{src}:{n}: bad %expect syntax")
+            unit.entries.append(("expect", m.group(1), m.group(2)))
+            buf_target = None
         elif d == "%sameitem":
             # %sameitem A B : source item A must be token-identical to item B, which the unit emits for both
             ps = arg.split()
